@@ -1,7 +1,17 @@
 #!/usr/bin/env python3
 """Regenerates MANIFEST.json from props.py (claimed checks) + the list of all property ids."""
-import json
+import json, os, subprocess
 from props import PROPS, META
+
+# the hook commits are read from the repository's history (every commit whose subject starts with "verif hook:"), oldest
+# first; hooks.json is the committed copy for a tree without git history
+try:
+    out = subprocess.check_output(["git", "-C", os.environ.get("VERIF_REPO", "/repo"), "log", "--reverse", "--format=%h",
+                                   "--grep=^verif hook"], text=True, stderr=subprocess.DEVNULL).split()
+    if out:
+        json.dump({"source_commits": out}, open("hooks.json", "w"), indent=1)
+except Exception:
+    pass
 ids = [json.loads(l)["id"] for l in open("properties.jsonl")]
 checks, na = [], []
 for i in ids:
